@@ -136,8 +136,12 @@ def ats(subset, hist, tl, fsci, fwi, ta=0x80, sfgi=0, tc=0x02):
 
 class HostileT4(t4t.Type4TagSim):
     def __init__(self, cc, ndef_file, ats_bytes=None, sensb=None,
-                 attrib_res=b'\x00', le_policy='exact', case1='6700', **kw):
+                 attrib_res=b'\x00', le_policy='exact', case1='6700',
+                 wide_offset=False, **kw):
         t4t.Type4TagSim.__init__(self, cc, ndef_file, **kw)
+        # wide_offset: P1-P2 of READ BINARY is taken as a 16 bit offset (bit
+        # 8 of P1 is not refused as a short file identifier)
+        self.wide_offset = wide_offset
         self.ats_bytes = ats_bytes
         self.sensb = sensb          # (nbytes, fsci, fwi, ptype, fo)
         self.attrib_res = bytes(attrib_res)
@@ -173,6 +177,16 @@ class HostileT4(t4t.Type4TagSim):
         return rsp
 
     def _apdu_exec(self, apdu, ctx):
+        if self.wide_offset and len(apdu) == 5 and apdu[0] == 0x00 \
+                and apdu[1] == 0xB0 and self.cur is not None \
+                and apdu[2] & 0x80:
+            f = self.files[self.cur]
+            off, le = apdu[2] << 8 | apdu[3], apdu[4] or 256
+            if off > len(f):
+                return b'\x6B\x00'
+            if le > max(self.mle, 15) or off + le > len(f):
+                return b'\x67\x00'
+            return bytes(f[off:off + le]) + b'\x90\x00'
         if len(apdu) >= 4 and apdu[0] == 0x00 and apdu[1] == 0xB0 \
                 and self.cur is not None and not apdu[2] & 0x80:
             if len(apdu) == 4 and self.case1 == '9000':
